@@ -81,6 +81,19 @@ EntriesTiny == {NonObj("scalar"), NonObj("null"),
   Obj("v1", "m0",  PAbsent, "int"),
   Obj("v2", "m0",  PAbsent, "float")}
 
+(* the context dimension: representatives of every class; every entry carries a value for slot a (the replayer tells the entries apart - and finds their gates - by it) *)
+EntriesCtx == {
+  Obj("v2", "m2",   PPos(<<"p", "p">>), "int"),                 \* result
+  Obj("v2", "m2",   PNamed("q", "p", NoTok), "str"),            \* application error
+  Obj("v2", "mctx", PPos(<<"p">>), "int"),                      \* takes the context: reports what it saw
+  Obj("v2", "mctx", PNamed("p", "q", NoTok), "str"),
+  Obj("v2", "m1o",  PPos(<<"p">>), "absent"),                   \* notification, invoked
+  Obj("v2", "mctx", PPos(<<"p", "p">>), "null"),                \* notification ("id": null) taking the context
+  Obj("v2", "unknown", PNull, "int"),                           \* -32601: no handler, answered by the worker
+  Obj("v2", "m2",   PPos(<<"p">>), "str"),                      \* -32602
+  Obj("v1", "m2",   PPos(<<"p", "p">>), "int"),                 \* -32600
+  NonObj("scalar")}                                             \* answered by the dispatcher itself
+
 AllTops == {"garbage", "garbagearr", "single", "batch"}
 
 ASSUME PositionalEqNamed
